@@ -27,6 +27,7 @@ EXPLANATION = (
     "carried from pass to pass, compared in the Memory-3 test with the same expression, and updated after the sample was "
     "classified; given that, a load value already seen can never take the Memory-3 branch. Not decided: steady-state cycle "
     "equality, junction configurations.")
+EXPLANATION += (' R-C04-6: in the multi-point path the representative sequence handed to the reversal detection and the load-step table indexed with the detected positions are both in order of appearance (order-class analysis; a key-sorted groupby/unique is a violation).')
 ASSUMPTIONS = ["the caller replays in pass 2 only loads of pass 1 (a fact about the caller's data)"]
 
 
